@@ -3,6 +3,7 @@ use crate::fw::*;
 use crate::indep::*;
 use crate::scn::*;
 use crate::sim::*;
+use mdns_sd::IfKind;
 use std::collections::BTreeSet;
 use std::time::Duration;
 
@@ -597,6 +598,117 @@ fn run_hist(seq: &[HOp], jitter: u64, loopback: bool, trace: bool) -> CaseResult
     res
 }
 
+// ---------------------------------------------------------------- an interface (or one of its families) comes back
+
+/// x = [variant, jitter index, gap index].  Variant 0: the only interface is disabled by name and
+/// enabled again after the gap; 1: an IPv6 address appears on the interface the service is already
+/// announced on over IPv4 (the service has an address of each family); 2: IPv6 was disabled before
+/// the registration and is enabled afterwards.  On the (interface, family) that came (back) the
+/// service must be probed three times, then announced twice one second apart, within the bound;
+/// where the whole interface had been given up (variant 0) nothing naming the instance may be
+/// sent in a response there before the probes are through.
+fn run_comes_back(x: &[u64], trace: bool) -> CaseResult {
+    let mut res = CaseResult::default();
+    let (variant, jitter, gap) = (x[0], [0u64, 137, 249][x[1] as usize], [300u64, 2000][x[2] as usize]);
+    let mut table = if variant == 2 { lay_dual() } else { lay_v4() };
+    let mut w = World::one(table.clone());
+    w.trace = trace;
+    w.ds[0].ctl.set_rng_default(jitter);
+    w.ds[0].h.set_ip_check_interval(1).unwrap();
+    w.poke(0);
+    w.advance(5100);
+    if variant == 2 {
+        w.ds[0].h.disable_interface(IfKind::IPv6).unwrap();
+        w.poke(0);
+    }
+    let ips = if variant == 0 { "10.0.0.5" } else { "10.0.0.5,fd00::5" };
+    w.ds[0].h.register(svc("_t._tcp.local.", "one", "host.local.", ips, 80, &[("k", "v")])).unwrap();
+    w.poke(0);
+    w.advance(3000);
+    let mut known_delay = 0;
+    match variant {
+        0 => {
+            w.ds[0].h.disable_interface("sim0").unwrap();
+            w.poke(0);
+            w.advance(gap);
+            w.ds[0].h.enable_interface("sim0").unwrap();
+            w.poke(0);
+        }
+        1 => {
+            w.advance(gap);
+            table.push(v6("sim0", IF0, "fd00::1", 64));
+            w.ds[0].ctl.set_intfs(table.clone());
+            known_delay = 1000; // seen at the next periodic check
+        }
+        _ => {
+            w.advance(gap);
+            w.ds[0].h.enable_interface(IfKind::IPv6).unwrap();
+            w.poke(0);
+        }
+    }
+    let t_e = w.now;
+    let want_v6 = variant != 0;
+    let ty = n("_t._tcp.local");
+    let inst = n("one._t._tcp.local");
+    // ask about the service every 125 ms over the family in question
+    let mut solicited: Vec<(usize, usize)> = vec![];
+    let end = t_e + known_delay + 4500;
+    let mut next_q = t_e + 60;
+    while w.now < end {
+        w.run_until(next_q.min(end));
+        if w.now == next_q {
+            let q = query(vec![(ty.clone(), T_PTR), (inst.clone(), T_ANY)]);
+            let from = w.log.len();
+            w.deliver(0, IF0, if want_v6 { PEER0_V6 } else { PEER0 }, build(&q));
+            solicited.push((from, w.log.len()));
+            next_q += 125;
+        }
+    }
+    if let Some(f) = daemon_fault(&w, 0) {
+        res.viols.push(viol("C07|B|daemon-fault", f));
+        return res;
+    }
+    let tag = ["interface-disabled-and-enabled-again", "ipv6-address-appears-on-the-announced-interface", "ipv6-enabled-after-the-registration"][variant as usize];
+    let lix_e = w.log.iter().position(|e| e.t >= t_e).unwrap_or(w.log.len());
+    let outs_f: Vec<(u64, &Out, bool)> = w.log.iter().enumerate().skip(lix_e).filter_map(|(ix, e)| match &e.kind {
+        Kind::Out(o) if o.if_index == Some(IF0) && o.dst.is_ipv6() == want_v6 => Some((e.t, o, solicited.iter().any(|(a, b)| ix >= *a && ix < *b))),
+        _ => None,
+    }).collect();
+    let is_ann = |o: &Out| o.is_multicast() && o.msg.as_ref().is_ok_and(|m| m.is_response() && m.answers.iter().any(|r| r.rtype == T_PTR && r.ttl > 0 && name_eq_ci(&r.name, &ty) && matches!(&r.rd, RD::Ptr(t) if name_eq_ci(t, &inst))) && m.answers.iter().any(|r| r.rtype == T_SRV && r.ttl > 0 && name_eq_ci(&r.name, &inst)));
+    // (where the instance name is already held on the interface, only the host's new address is proposed)
+    let host = n("host.local");
+    let is_probe = |o: &Out| o.msg.as_ref().is_ok_and(|m| !m.is_response() && [&inst, &host].iter().any(|nm| m.questions.iter().any(|q| q.qtype == T_ANY && name_eq_ci(&q.name, nm)) && m.authorities.iter().any(|r| name_eq_ci(&r.name, nm))));
+    let anns: Vec<u64> = outs_f.iter().filter(|(_, o, sol)| !*sol && is_ann(o)).map(|(t, _, _)| *t).collect();
+    let probes: Vec<u64> = outs_f.iter().filter(|(_, o, _)| is_probe(o)).map(|(t, _, _)| *t).collect();
+    let rel = |v: &[u64]| v.iter().map(|t| t - t_e).collect::<Vec<_>>();
+    let ctx = format!("jitter {jitter} gap {gap}: after the event probes at {:?}, unsolicited announcements at {:?} (ms)", rel(&probes), rel(&anns));
+    let bound = t_e + known_delay + 250 + 750 + 60;
+    res.count("comebacks_checked", 1);
+    match anns.first() {
+        Some(a1) if *a1 <= bound => {
+            if !anns.iter().any(|a| *a >= a1 + 900 && *a <= a1 + 1100) {
+                res.viols.push(viol(format!("C07|B|no-second-announcement-one-second-after-the-first|{tag}"), ctx.clone()));
+            }
+            let before: Vec<u64> = probes.iter().copied().filter(|p| p < a1).collect();
+            if before.len() < 3 || before.windows(2).any(|p| p[1] - p[0] < 250) || a1 - before[before.len() - 1] < 250 {
+                res.viols.push(viol(format!("C07|B|announced-without-three-probes-250ms-apart|{tag}"), ctx.clone()));
+            }
+            if variant == 0 {
+                let early: Vec<u64> = outs_f.iter().filter(|(t, o, _)| t < a1 && o.msg.as_ref().is_ok_and(|m| m.is_response() && m.all_records().any(|r| r.ttl > 0 && (name_eq_ci(&r.name, &inst) || matches!(&r.rd, RD::Ptr(t) if name_eq_ci(t, &inst)))))).map(|(t, _, _)| *t).collect();
+                if !early.is_empty() {
+                    res.viols.push(viol(format!("C07|B|answered-for-before-the-probes-were-through|{tag}"), format!("responses naming the instance at {:?}; {ctx}", rel(&early))));
+                }
+            }
+        }
+        _ => res.viols.push(viol(format!("C07|B|not-announced-within-the-bound|{tag}"), format!("bound +{}; {ctx}", bound - t_e))),
+    }
+    res.nontrivial = true;
+    res.transitions = w.steps;
+    res.outcome = outcome_hash(&w.log);
+    res.states = final_states(&w);
+    res
+}
+
 pub fn check(tier: &str) -> i32 {
     let mut rep = Report::new("C07", tier, "model_checking");
     let thorough = rep.thorough();
@@ -678,6 +790,16 @@ pub fn check(tier: &str) -> i32 {
         run: Box::new(move |i, tr| run_hist(&hseq(i / 6), hj[(i % 3) as usize], i % 6 >= 3, tr)),
     };
     rep.run_part(&hist, Duration::from_secs(if thorough { 3000 } else { 50 }));
+    let bdims = [3u64, 3, 2];
+    let back = FnPart {
+        name: "interface-or-family-comes-back".into(),
+        rule: "an announced service x (its only interface is disabled by name and enabled again | an IPv6 address appears on the interface it is announced on over IPv4 | IPv6, disabled before the registration, is enabled) x 3 jitters x gap {0.3, 2 s}; asked every 125 ms; on the interface and family that came (back): three probes 250 ms apart, first announcement within the bound, a second one second later, and - where the interface had been given up - no response naming the instance before that".into(),
+        n: product(&bdims),
+        describe: Box::new(move |i| format!("{:?}", unrank(i, &bdims))),
+        run: Box::new(move |i, tr| run_comes_back(&unrank(i, &bdims), tr)),
+    };
+    rep.run_part(&back, Duration::from_secs(120));
+    rep.require("interface-or-family-comes-back", "comebacks_checked");
     rep.require("registration-histories", "announced_within_bound");
     rep.require("registration-histories", "registrations_of_a_name_not_held");
     rep.require("registration-histories", "registrations_of_a_name_already_held");
